@@ -194,6 +194,28 @@ def W.beginShutdown (s : W) : W :=
            phase := if s.rt.waitClosedBlocksOnConnections then .closing else .draining s.now,
            log := s.log ++ [.terminated] ++ gone.map (fun c => Ev.closedIdle c.id) }
 
+/-- the statements of the exit path, in the order `srvStep` performs them: `beginShutdown` is `terminated.set()` AND the
+    closing of the listeners in one atomic action (`listening := false`: no `connect` is enabled from then on, so the set
+    of handlers the drain waits for can only shrink), runtimes with `waitClosedBlocksOnConnections` then sit in
+    `server.wait_closed()` (phase `closing`), then the bounded wait for the handlers (phase `draining`), then the put of
+    `lifespan.shutdown` (`startLifespanShutdown`), then the lifespan task is cancelled and awaited (`finishServe`).
+    `HC/Props/C14.lean` compares this list with the statement order read off asyncio `worker_serve`. -/
+inductive ExitStmt | setTerminated | closeListeners | waitClosed | boundedDrain | lifespanShutdown | cancelLifespan | awaitLifespan
+  deriving Repr, DecidableEq
+
+def ExitStmt.name : ExitStmt → String
+  | .setTerminated => "terminated.set"
+  | .closeListeners => "server.close"
+  | .waitClosed => "server.wait_closed"
+  | .boundedDrain => "bounded_drain"
+  | .lifespanShutdown => "wait_for_shutdown"
+  | .cancelLifespan => "lifespan_task.cancel"
+  | .awaitLifespan => "await lifespan_task"
+
+def exitOrder (rt : Runtime) : List ExitStmt :=
+  [.setTerminated, .closeListeners] ++ (if rt.waitClosedBlocksOnConnections then [.waitClosed] else []) ++
+  [.boundedDrain, .lifespanShutdown, .cancelLifespan, .awaitLifespan]
+
 /-- `lifespan_task.cancel(); await lifespan_task` (asyncio) / `lifespan_nursery.cancel_scope.cancel()` (trio:
     whatever the lifespan task is doing it is cancelled; an exception in flight inside its `finally` is replaced) -/
 def W.finishServe (s : W) : W :=
